@@ -51,8 +51,8 @@ func main() {
 		os.Exit(h.ExitHarnessError)
 	}
 
-	nLattice := run.N(40, 250)
-	nMatrix := run.N(len(matrixTemplates())*4, len(matrixTemplates())*4*6)
+	nLattice := run.N(96, 2400)
+	nMatrix := run.N(len(matrixTemplates())*4*2, len(matrixTemplates())*4*10)
 	sweeps := sweepConfigs(run.Thorough())
 
 	total := nLattice + nMatrix + len(sweeps)
@@ -71,5 +71,5 @@ func main() {
 		}
 	})
 	closeServers()
-	run.Finish(run.N(100, 600))
+	run.Finish(run.N(300, 3000))
 }
